@@ -36,7 +36,7 @@ prop("C01", NEC + "Clauses: positions handed to TokenChange queries are absolute
       {"rule": "TRAVERSE", "filter": tag("traverse"), "floor": 106},
       {"rule": "TOKEN-ERRORS", "floor": 2}, {"rule": "TABLES", "filter": tag("T2"), "floor": 17},
       {"rule": "UPDATE-ORDER", "floor": 3}, {"rule": "RELEX-WINDOW", "floor": 8}, {"rule": "STRIP-REBUILD", "floor": 2},
-      {"rule": "COMMENT-LEX", "floor": 5}, {"rule": "TEXT-SYNC", "filter": tag("batch"), "floor": 4}, {"rule": "REUSE", "floor": 13},
+      {"rule": "COMMENT-LEX", "floor": 5}, {"rule": "TEXT-SYNC", "filter": tag("batch"), "floor": 4}, {"rule": "REUSE", "floor": 14},
       {"rule": "ERROR-OWNER", "floor": 20}])
 
 prop("C02", NEC + "Clauses: token-range to text-range conversions unwrap first()/last() only in the arm complementary "
@@ -49,7 +49,7 @@ prop("C02", NEC + "Clauses: token-range to text-range conversions unwrap first()
      [{"rule": "EMPTY-RANGE-GUARD", "floor": 2}, {"rule": "LOOKUP-NOPANIC", "floor": 14},
       {"rule": "ENTRY-GUARD", "floor": 6}, {"rule": "WHO-MAY", "filter": tag("exit"), "floor": 5},
       {"rule": "TOKEN-RANGE-SOURCE", "floor": 11}, {"rule": "INDEX-ELEM", "floor": 30},
-      {"rule": "BUILTIN-SET", "floor": 3}, {"rule": "TEXT-SYNC", "filter": tag("batch"), "floor": 4}])
+      {"rule": "BUILTIN-SET", "floor": 3}, {"rule": "TEXT-SYNC", "filter": tag("batch", "clamp"), "floor": 6}])
 
 prop("C03", NEC + "Clauses: each of the 27 build/semantic message kinds has an emitting site under table::* and its own "
      "text (VARIANTS); every error is attached in the reference frame of the node that owns it and is shifted exactly "
@@ -100,7 +100,7 @@ prop("C08", NEC + "Clauses: no content change is discarded, batched changes are 
      "client positions are interpreted only by get_insertion_index and positions sent out come only from as_position (POS-CONV); "
      "the scan for a client position has an exit that depends on the line alone (a column behind the end of a line is clamped to it); "
      "no byte distance is computed from terminator-stripped lines.",
-     [{"rule": "TEXT-SYNC", "floor": 13}, {"rule": "LEN-UNITS", "floor": 3}, {"rule": "POS-CONV", "floor": 22}])
+     [{"rule": "TEXT-SYNC", "floor": 15}, {"rule": "LEN-UNITS", "floor": 3}, {"rule": "POS-CONV", "floor": 22}])
 
 prop("C09", NEC + "Clauses: operators are re-printed as the lexeme they were lexed from (T4); every Format impl prints "
      "every child that holds an identifier, literal or operator and every Error variant (TRAVERSE); every token slice "
@@ -130,7 +130,7 @@ prop("C12", NEC + "Clauses: an entry's name range is resolved against the token 
      [{"rule": "FRAME", "filter": files("goto.rs", "features.rs", "table.rs"), "floor": 16},
       {"rule": "SCOPE-ORDER", "floor": 18}, {"rule": "ENTRY-GUARD", "floor": 6}, {"rule": "ENTRY-KIND", "floor": 4},
       {"rule": "LOOKUP-NOPANIC", "floor": 14}, {"rule": "BUILTIN-SET", "floor": 3}, {"rule": "POS-CONV", "floor": 23},
-      {"rule": "CURSOR-CMP", "floor": 1},
+      {"rule": "CURSOR-CMP", "floor": 1}, {"rule": "IDENT-RANGE", "filter": tag("identexact"), "floor": 1},
       {"rule": "FRAME", "filter": files("parser.rs", "utility.rs"), "floor": 3}])
 
 prop("C13", NEC + "Clauses: the finder walkers descend into every statement/expression/type shape that can contain what "
@@ -139,7 +139,7 @@ prop("C13", NEC + "Clauses: the finder walkers descend into every statement/expr
      "(SCOPE-ORDER); every range sent out is converted by as_pos_range (UTF-16 columns) only (POS-CONV)." + PARSER_REF,
      [{"rule": "TRAVERSE", "filter": tag("vars", "calls", "types"), "floor": 51},
       {"rule": "FRAME", "filter": files("references.rs"), "floor": 56}, {"rule": "SAME-FINDER", "floor": 3},
-      {"rule": "SCOPE-ORDER", "floor": 18}, {"rule": "IDENT-RANGE", "floor": 4}, {"rule": "POS-CONV", "floor": 23},
+      {"rule": "SCOPE-ORDER", "floor": 18}, {"rule": "IDENT-RANGE", "floor": 5}, {"rule": "POS-CONV", "floor": 23},
       {"rule": "CURSOR-CMP", "floor": 1}, {"rule": "BSEARCH-MONO", "floor": 1},
       {"rule": "FRAME", "filter": files("parser.rs", "utility.rs"), "floor": 3}])
 
@@ -152,7 +152,7 @@ prop("C14", NEC + "Clauses: the call statement is located with node, origin and 
      "lines of its declaration (DOC-FLOW)." + PARSER_REF,
      [{"rule": "FRAME", "filter": files("signature_help.rs"), "floor": 8},
       {"rule": "TRAVERSE", "filter": tag("calls"), "floor": 18}, {"rule": "SCOPE-ORDER", "floor": 18},
-      {"rule": "DISPLAY-FIELDS", "floor": 4}, {"rule": "IDENT-RANGE", "floor": 4}, {"rule": "POS-CONV", "floor": 22},
+      {"rule": "DISPLAY-FIELDS", "floor": 4}, {"rule": "IDENT-RANGE", "floor": 5}, {"rule": "POS-CONV", "floor": 22},
       {"rule": "CURSOR-CMP", "floor": 1}, {"rule": "DOC-FLOW", "floor": 1},
       {"rule": "FRAME", "filter": files("parser.rs", "utility.rs"), "floor": 3}])
 
